@@ -41,13 +41,13 @@ type LangObs struct {
 }
 
 type langOpts struct {
-	env     map[string]string // option key -> value of its environment variable (variable VQ_<KEY>)
-	builtin bool              // use BoolOpt/StringsOpt/StringsArg instead of the logging custom type
-	sharedDefault bool        // built-in types only: every multi-valued declaration gets the same caller-owned default slice
-	policy  flag.ErrorHandling
-	keepErr bool
-	first   []string // when non-nil: this command line is run first, on the same instance
-	hasFirst bool
+	env           map[string]string // option key -> value of its environment variable (variable VQ_<KEY>)
+	builtin       bool              // use BoolOpt/StringsOpt/StringsArg instead of the logging custom type
+	sharedDefault bool              // built-in types only: every multi-valued declaration gets the same caller-owned default slice
+	policy        flag.ErrorHandling
+	keepErr       bool
+	first         []string // when non-nil: this command line is run first, on the same instance
+	hasFirst      bool
 }
 
 func optName(o ref.OptDecl) string {
@@ -87,75 +87,97 @@ func runLang(d *ref.Decl, spec string, argv []string, lo langOpts) LangObs {
 	if lo.policy == 0 {
 		app.ErrorHandling = flag.ContinueOnError
 	}
-	app.Spec = spec
 	sbu := make([]bool, nc)
 	var read func(i int) []string
-	if !lo.builtin {
-		vals := make([]*logVal, nc)
-		for i, o := range d.Opts {
-			vals[i] = &logVal{isFlag: o.Flag}
-			ev := ""
-			if _, ok := lo.env[o.Key]; ok {
-				ev = "VQ_" + strings.ToUpper(o.Key)
-			}
-			app.Var(cli.VarOpt{Name: optName(o), Value: vals[i], EnvVar: ev, SetByUser: &sbu[i]})
-		}
-		for j, a := range d.Args {
-			i := len(d.Opts) + j
-			vals[i] = &logVal{}
-			app.Var(cli.VarArg{Name: a, Value: vals[i], SetByUser: &sbu[i]})
-		}
-		read = func(i int) []string { return append([]string(nil), vals[i].sets...) }
-	} else {
-		bools := make([]*bool, nc)
-		strs := make([]*[]string, nc)
-		var shared []string
-		if lo.sharedDefault {
-			shared = append(make([]string, 0, 4), sharedDefaultContent...)
-		}
-		for i, o := range d.Opts {
-			ev := ""
-			if _, ok := lo.env[o.Key]; ok {
-				ev = "VQ_" + strings.ToUpper(o.Key)
-			}
-			if o.Flag {
-				bools[i] = app.Bool(cli.BoolOpt{Name: optName(o), EnvVar: ev, SetByUser: &sbu[i]})
-			} else {
-				strs[i] = app.Strings(cli.StringsOpt{Name: optName(o), EnvVar: ev, SetByUser: &sbu[i], Value: shared})
-			}
-		}
-		for j, a := range d.Args {
-			i := len(d.Opts) + j
-			strs[i] = app.Strings(cli.StringsArg{Name: a, SetByUser: &sbu[i], Value: shared})
-		}
-		read = func(i int) []string {
-			if bools[i] != nil {
-				if *bools[i] {
-					return []string{"true"}
+	// d.Nested: everything is declared on the sub-command `sub` (lazily, inside its initializer, while the
+	// environment is still set) and the command line is prefixed with its name
+	declare := func(app *cli.Cmd) {
+		app.Spec = spec
+		if !lo.builtin {
+			vals := make([]*logVal, nc)
+			for i, o := range d.Opts {
+				vals[i] = &logVal{isFlag: o.Flag}
+				ev := ""
+				if _, ok := lo.env[o.Key]; ok {
+					ev = "VQ_" + strings.ToUpper(o.Key)
 				}
-				return nil
+				app.Var(cli.VarOpt{Name: optName(o), Value: vals[i], EnvVar: ev, SetByUser: &sbu[i]})
 			}
-			if lo.sharedDefault && sameStrings(*strs[i], sharedDefaultContent) {
-				return nil // still the declared default: nothing came from the command line
+			for j, a := range d.Args {
+				i := len(d.Opts) + j
+				vals[i] = &logVal{}
+				app.Var(cli.VarArg{Name: a, Value: vals[i], SetByUser: &sbu[i]})
 			}
-			return append([]string(nil), (*strs[i])...)
+			read = func(i int) []string { return append([]string(nil), vals[i].sets...) }
+		} else {
+			bools := make([]*bool, nc)
+			strs := make([]*[]string, nc)
+			var shared []string
+			if lo.sharedDefault {
+				shared = append(make([]string, 0, 4), sharedDefaultContent...)
+			}
+			for i, o := range d.Opts {
+				ev := ""
+				if _, ok := lo.env[o.Key]; ok {
+					ev = "VQ_" + strings.ToUpper(o.Key)
+				}
+				if o.Flag {
+					bools[i] = app.Bool(cli.BoolOpt{Name: optName(o), EnvVar: ev, SetByUser: &sbu[i]})
+				} else {
+					strs[i] = app.Strings(cli.StringsOpt{Name: optName(o), EnvVar: ev, SetByUser: &sbu[i], Value: shared})
+				}
+			}
+			for j, a := range d.Args {
+				i := len(d.Opts) + j
+				strs[i] = app.Strings(cli.StringsArg{Name: a, SetByUser: &sbu[i], Value: shared})
+			}
+			read = func(i int) []string {
+				if bools[i] != nil {
+					if *bools[i] {
+						return []string{"true"}
+					}
+					return nil
+				}
+				if lo.sharedDefault && sameStrings(*strs[i], sharedDefaultContent) {
+					return nil // still the declared default: nothing came from the command line
+				}
+				return append([]string(nil), (*strs[i])...)
+			}
 		}
 	}
-	for k := range lo.env {
-		os.Unsetenv("VQ_" + strings.ToUpper(k))
+	var action func()
+	if d.Nested {
+		app.Command("sub", "", func(sub *cli.Cmd) {
+			declare(sub)
+			sub.Action = func() { action() }
+		})
+	} else {
+		declare(app.Cmd)
+		for k := range lo.env {
+			os.Unsetenv("VQ_" + strings.ToUpper(k))
+		}
 	}
 	snapshot := func() {
+		if read == nil {
+			return // the sub-command was never initialised
+		}
 		obs.Lists = make([][]string, nc)
 		for i := 0; i < nc; i++ {
 			obs.Lists[i] = read(i)
 		}
 		obs.SetByUser = append([]bool(nil), sbu...)
 	}
-	app.Action = func() {
+	action = func() {
 		obs.ActionRuns++
 		snapshot()
 	}
+	if !d.Nested {
+		app.Action = action
+	}
 	full := append([]string{"app"}, argv...)
+	if d.Nested {
+		full = append([]string{"app", "sub"}, argv...)
+	}
 	if lo.hasFirst {
 		sharedBuf.Reset()
 		runDirect(&sharedBuf, func() error { return app.Run(append([]string{"app"}, lo.first...)) })
@@ -163,6 +185,11 @@ func runLang(d *ref.Decl, spec string, argv []string, lo langOpts) LangObs {
 	}
 	sharedBuf.Reset()
 	o := runDirect(&sharedBuf, func() error { return app.Run(full) })
+	if d.Nested {
+		for k := range lo.env {
+			os.Unsetenv("VQ_" + strings.ToUpper(k))
+		}
+	}
 	obs.Exits = o.Exits
 	if o.Panicked {
 		obs.Panic = safeSprint(o.PanicVal)
